@@ -99,7 +99,22 @@ def _check_path(item, rep, eng):
     except Exception as e:
         try:
             concrete(recipe, sims, m, {}, {})
-            rep.error(f'symbolic run failed but concrete run did not on {name} m={m}: {type(e).__name__}: {e}')
+            # the code under test does something the lane values cannot follow: concrete stimuli instead (not a solver verdict - said so)
+            import random
+            rng = random.Random(f'{name}/{m}')
+            c0 = netlist.from_recipe(recipe); s0 = LogicSim(c0, sims, m=m)
+            for _ in range(24):
+                mb = {(i, p, b): rng.choice((0, 255, rng.randrange(256))) for i in range(s0.s_len) for p in range(3 if m == 8 else 2) for b in range(s0.c.shape[-1])}
+                wb = {}
+                for i in range(s0.s_len):
+                    for b in range(s0.c.shape[-1]): wb[f'wf{i}_b{b}'] = mb[(i, 0, b)]; wb[f'wi{i}_b{b}'] = mb[(i, 1, b)]
+                bad = concrete(recipe, sims, m, mb, wb)
+                rep.counts['concrete_fallback_runs'] += 1
+                if bad:
+                    rep.violation(f'circuit={name}/m{m}/{bad[0][0]}', f'sims={sims} m={m}: (what, node, byte, bad lanes)={bad[0]} (concrete stimulus; the symbolic run was not possible)',
+                                  {'recipe': recipe, 'sims': sims, 'm': m, 'in_bytes': [[list(k), v] for k, v in mb.items() if v], 'w_bytes': wb})
+                    return
+            rep.error(f'symbolic run failed but concrete runs did not on {name} m={m}: {type(e).__name__}: {e} (24 concrete stimuli show no mismatch)')
         except Exception as e2:
             rep.violation(f'exception={type(e2).__name__}@{name}/m{m}', f'real code raised {type(e2).__name__}: {e2}',
                           {'recipe': recipe, 'sims': sims, 'm': m, 'in_bytes': [], 'w_bytes': {}})
